@@ -3,6 +3,7 @@ package chk
 import (
 	"fmt"
 	"go/token"
+	"sort"
 	"strings"
 
 	"golang.org/x/tools/go/ssa"
@@ -447,27 +448,76 @@ func runGlue(c *Ctx) {
 			continue
 		}
 		got := cleanSeqs(p, fn)
-		ws := map[string]bool{}
-		for _, w := range want {
-			ws[w] = true
-		}
+		// what is compared: the calls the function can make with their argument terms, the fields it sets with their
+		// value terms, and the conditions on non-error values it branches on — as sets over all error-free paths. How the
+		// paths are grouped, the order of events and the form of the results are the author's business (a transaction
+		// wrapper or a lookup helper regroups them without changing what is routed where).
+		wc, we := glueSets(want)
+		gc, ge := glueSets(got)
 		var extra, missing []string
-		gs := map[string]bool{}
-		for _, g := range got {
-			gs[g] = true
-			if !ws[g] {
-				extra = append(extra, g)
+		for k := range ge {
+			if !we[k] {
+				extra = append(extra, k)
 			}
 		}
-		for _, w := range want {
-			if !gs[w] {
-				missing = append(missing, w)
+		for k := range gc {
+			if !wc[k] {
+				extra = append(extra, "if "+k)
 			}
 		}
+		for k := range we {
+			if !ge[k] {
+				missing = append(missing, k)
+			}
+		}
+		for k := range wc {
+			if !gc[k] {
+				missing = append(missing, "if "+k)
+			}
+		}
+		sort.Strings(extra)
+		sort.Strings(missing)
 		if len(extra) == 0 && len(missing) == 0 {
-			c.Pass(name, fn.Pos(), "%d error-free sequence(s) as confirmed", len(got))
+			c.Pass(name, fn.Pos(), "%d call/store event(s) and %d condition(s) as confirmed", len(ge), len(gc))
 			continue
 		}
-		c.Fail(name, fn.Pos(), "the values this function routes changed: now [%s]; confirmed [%s]", strings.Join(extra, " | "), strings.Join(missing, " | "))
+		c.Fail(name, fn.Pos(), "the values this function routes changed: new [%s]; gone [%s]", strings.Join(extra, " | "), strings.Join(missing, " | "))
 	}
+}
+
+// glueSets splits rendered error-free paths "[c ∧ c] ev ; ev ⇒ results" into the set of conditions and the set of
+// events (stores into captured variables are internal data flow and left out).
+func glueSets(seqs []string) (conds, events map[string]bool) {
+	conds, events = map[string]bool{}, map[string]bool{}
+	for _, s := range seqs {
+		body := s
+		if i := strings.LastIndex(s, " ⇒ "); i >= 0 {
+			body = s[:i]
+		}
+		if strings.HasPrefix(body, "[") {
+			if j := strings.Index(body, "] "); j >= 0 {
+				for _, c := range strings.Split(body[1:j], " ∧ ") {
+					if c != "" {
+						conds[c] = true
+					}
+				}
+				body = body[j+2:]
+			} else if strings.HasSuffix(body, "]") {
+				for _, c := range strings.Split(body[1:len(body)-1], " ∧ ") {
+					if c != "" {
+						conds[c] = true
+					}
+				}
+				body = ""
+			}
+		}
+		for _, e := range strings.Split(body, " ; ") {
+			e = strings.TrimSpace(e)
+			if e == "" || strings.HasPrefix(e, "fv:") {
+				continue
+			}
+			events[e] = true
+		}
+	}
+	return
 }
